@@ -29,7 +29,7 @@ import (
 type item struct {
 	ID   string `json:"id"`
 	Kind string `json:"kind"` // worker startworker service hook task micro_high micro_med micro_low startmicro signal
-	Out  string `json:"out"`  // ok err panic_nil panic_err panic_str panic_rt panic_struct panic_cancel panic_slice panic_twice
+	Out  string `json:"out"`  // ok err panic_nil panic_err panic_str panic_rt panic_struct panic_cancel panic_slice panic_twice panic_nilerr
 	Done int    `json:"done"` // signal variants: how often done() is called
 	Bo   int    `json:"bo"`   // service workers: restart back-off in milliseconds (0: 10 ms)
 	Pre  bool   `json:"pre"`  // worker / startworker: started before the module system is started
@@ -99,9 +99,18 @@ func panicValue(out string) any {
 		return fmt.Errorf("sub-operation aborted: %w", context.Canceled)
 	case "panic_slice", "panic_twice":
 		return payloadS{Op: "flush", Pending: []int{1, 2, 3}}
+	case "panic_nilerr":
+		// an error value whose Error method itself panics (nil pointer receiver): rendering the value must not
+		// take the process down either
+		var e *brokenErr
+		return e
 	}
 	return nil
 }
+
+type brokenErr struct{ msg string }
+
+func (e *brokenErr) Error() string { return e.msg }
 
 func finish(it *item) error {
 	switch it.Out {
@@ -178,6 +187,9 @@ func wret(it *item, err error) {
 		case "panic_cancel":
 			e, ok := me.PanicValue.(error)
 			valueOK = ok && errors.Is(e, context.Canceled) && e.Error() == fmt.Sprint(panicValue(it.Out))
+		case "panic_nilerr":
+			e, ok := me.PanicValue.(*brokenErr)
+			valueOK = ok && e == nil
 		default:
 			valueOK = reflect.DeepEqual(me.PanicValue, panicValue(it.Out))
 		}
